@@ -512,6 +512,7 @@ func (it *mapIter) next() tuple {
 
 type hashmapIter struct {
 	r    *Run
+	sym  bool
 	ents []*entry
 }
 
@@ -520,7 +521,7 @@ func (it *hashmapIter) next() tuple {
 		return []value{false, nil, nil}
 	}
 	idx := 0
-	if it.r.MapOrderSymbolic && len(it.ents) > 1 {
+	if it.sym && len(it.ents) > 1 {
 		idx = it.r.S.choose("maporder", len(it.ents))
 	}
 	e := it.ents[idx]
